@@ -40,24 +40,37 @@ type ucase struct {
 	// answers: percentage of false / FLOOD_WAIT per request, at most MaxRej rejections in a row per part;
 	// ErrAt >= 0: the ErrAt-th request (in arrival order) gets a non-retryable RPC error
 	PFalse, PFlood, MaxRej int
-	ErrAt                  int    `json:"err_at"`
-	Chunked                bool   `json:"chunked"` // the source returns short reads
-	Seed                   uint64 `json:"seed"`
+	ErrAt                  int `json:"err_at"`
+	// Gate >= 0: the first answer for part Gate (made a FLOOD_WAIT) is held back until a request for the
+	// LAST part has arrived (streamed uploads, threads >= 2): forces "retry after the count became known"
+	Gate    int    `json:"gate"`
+	gateSet bool   // Gate = 0 is meant (otherwise 0 is the zero value = no gate)
+	Chunked bool   `json:"chunked"` // the source returns short reads
+	Seed    uint64 `json:"seed"`
 }
 
 type req struct {
 	Part, Len, Total, Resp int
 	BytesOK                bool
+	// Late: when the answer to this request was RETURNED, the mock had already received a request that
+	// carried a known (non -1) total. A retry of the part is built after that return, hence after the count
+	// was stored by the reader: it must carry the count.
+	Late bool
 }
 
 type mock struct {
-	mu      sync.Mutex
-	c       ucase
-	rng     *hx.Rand
-	log     []req
-	rejRun  map[int]int
-	ps      int // the part size the property prescribes (explicit, or smallest of 128/256/512 KiB within 3999 parts)
-	fileIDs map[int64]bool
+	mu        sync.Mutex
+	c         ucase
+	rng       *hx.Rand
+	log       []req
+	rejRun    map[int]int
+	knownSeen bool          // a request with file_total_parts != -1 has arrived
+	lastSeen  chan struct{} // closed when a request for the last part has arrived
+	lastPart  int
+	gated     bool
+	badRetry  string
+	ps        int // the part size the property prescribes (explicit, or smallest of 128/256/512 KiB within 3999 parts)
+	fileIDs   map[int64]bool
 }
 
 func (m *mock) decide(part int) int {
@@ -84,18 +97,51 @@ func (m *mock) decide(part int) int {
 
 func (m *mock) answer(id int64, part, total int, b []byte) (bool, error) {
 	m.mu.Lock()
-	defer m.mu.Unlock()
 	r := m.decide(part)
 	m.fileIDs[id] = true
+	hold := false
+	if m.c.Gate >= 0 && part == m.c.Gate && !m.gated && part != m.lastPart {
+		m.gated, hold, r = true, true, rFlood
+	}
+	if total != -1 && total != 0 {
+		m.knownSeen = true
+	}
+	// a retry whose previous answer was returned after the count was known must carry the count
+	for i := len(m.log) - 1; i >= 0; i-- {
+		if m.log[i].Part == part {
+			if m.log[i].Late && total == -1 && m.badRetry == "" {
+				m.badRetry = fmt.Sprintf("request %d (retry of part %d) carries file_total_parts=-1 although the previous answer for that part was returned after a request with the final count had been received", len(m.log), part)
+			}
+			break
+		}
+	}
+	idx := len(m.log)
 	// part k must hold file[k*ps : k*ps+len] where ps is the part size the property prescribes
 	m.log = append(m.log, req{Part: part, Len: len(b), Total: total, Resp: r, BytesOK: m.ps > 0 && xfer.Equal(int64(part)*int64(m.ps), b)})
+	if part == m.lastPart && m.lastSeen != nil {
+		select {
+		case <-m.lastSeen:
+		default:
+			close(m.lastSeen)
+		}
+	}
+	m.mu.Unlock()
+	if hold {
+		select {
+		case <-m.lastSeen:
+		case <-time.After(3 * time.Second): // never with >= 2 workers; keeps a broken build from hanging
+		}
+	}
+	m.mu.Lock()
+	m.log[idx].Late = m.knownSeen
+	m.mu.Unlock()
 	switch r {
 	case rTrue:
 		return true, nil
 	case rFalse:
 		return false, nil
 	case rFlood:
-		return false, tgerr.New(420, fmt.Sprintf("FLOOD_WAIT_%d", 1+m.rng.Intn(30)))
+		return false, tgerr.New(420, fmt.Sprintf("FLOOD_WAIT_%d", 1+int(m.c.Seed%29)))
 	}
 	return false, tgerr.New(400, "FILE_PART_INVALID")
 }
@@ -108,21 +154,25 @@ func (m *mock) UploadSaveBigFilePart(ctx context.Context, r *tg.UploadSaveBigFil
 }
 
 type obs struct {
-	Status  int // 0 ok / RPC error, 1-3 checkPartSize, 4 too many parts
-	Ps      int
-	Big     bool
-	Tp      int
-	Log     []req
-	Kind    int // 0 error, 1 InputFile, 2 InputFileBig
-	Parts   int
-	MD5     string
-	Err     string
-	Panic   string
-	FileIDs int
+	Status   int // 0 ok / RPC error, 1-3 checkPartSize, 4 too many parts
+	Ps       int
+	Big      bool
+	Tp       int
+	Log      []req
+	Kind     int // 0 error, 1 InputFile, 2 InputFileBig
+	Parts    int
+	MD5      string
+	Err      string
+	Panic    string
+	FileIDs  int
+	BadRetry string
 }
 
 func run(c ucase) obs {
-	m := &mock{c: c, rng: hx.NewRand(c.Seed), rejRun: map[int]int{}, fileIDs: map[int64]bool{}, ps: expectedPartSize(c)}
+	m := &mock{c: c, rng: hx.NewRand(c.Seed), rejRun: map[int]int{}, fileIDs: map[int64]bool{}, ps: expectedPartSize(c), lastSeen: make(chan struct{}), lastPart: -1}
+	if m.ps > 0 && c.Size > 0 {
+		m.lastPart = int(ceilDiv(c.Size, int64(m.ps))) - 1
+	}
 	u := uploader.NewUploader(m).WithThreads(c.Threads).WithIDGenerator(func() (int64, error) { return 4242, nil })
 	if !c.Auto {
 		u = u.WithPartSize(c.Cfg)
@@ -144,6 +194,7 @@ func run(c ucase) obs {
 	m.mu.Lock()
 	o.Log = append([]req(nil), m.log...)
 	o.FileIDs = len(m.fileIDs)
+	o.BadRetry = m.badRetry
 	m.mu.Unlock()
 	if err != nil {
 		o.Err = err.Error()
@@ -239,6 +290,9 @@ func main() {
 
 	spent := map[string]float64{}
 	one := func(src string, uc ucase) {
+		if uc.Gate == 0 && !uc.gateSet {
+			uc.Gate = -1
+		}
 		c.Obs.Evaluations++
 		t0 := time.Now()
 		o := run(uc)
@@ -248,7 +302,11 @@ func main() {
 		logs := make([]string, len(o.Log))
 		rejected := 0
 		for i, q := range o.Log {
-			logs[i] = hx.Tuple(hx.Z(int64(q.Part)), hx.Z(int64(q.Len)), hx.Z(int64(q.Total)), hx.Z(int64(q.Resp)))
+			late := 0
+			if q.Late {
+				late = 1
+			}
+			logs[i] = hx.Tuple(hx.Z(int64(q.Part)), hx.Z(int64(q.Len)), hx.Z(int64(q.Total)), hx.Z(int64(q.Resp)), hx.Z(int64(late)))
 			if q.Resp == rFalse || q.Resp == rFlood {
 				rejected++
 			}
@@ -334,6 +392,10 @@ func main() {
 					return
 				}
 			}
+		}
+		if o.Big && o.BadRetry != "" {
+			bad("big-retry-without-known-total", "%s", o.BadRetry)
+			return
 		}
 		for i := int64(0); i < n; i++ {
 			if accepted[int(i)] != 1 {
@@ -447,6 +509,21 @@ func main() {
 				uc2 := ucase{Cfg: ps, Declared: sz, Size: sz, Threads: t}
 				answers(&uc2)
 				one("small-explicit", uc2)
+			}
+		}
+	}
+	// a part is answered FLOOD_WAIT while the reader goes on to the end of the stream: its retry is sent after
+	// the count became known and must carry it (the mock holds the first answer until the last part arrives)
+	for _, ps := range []int{kib, 4 * kib} {
+		for _, k := range []int64{2, 3, 5} {
+			for _, t := range []int{2, 3, 8} {
+				for _, gate := range []int{0, 1} {
+					if int64(gate) >= k {
+						continue
+					}
+					uc := ucase{Cfg: ps, Declared: -1, Size: k*int64(ps) + int64(1+c.Rng.Intn(ps-1)), Threads: t, ErrAt: -1, Gate: gate, gateSet: true, Seed: c.Rng.U64()}
+					one("gated-retry", uc)
+				}
 			}
 		}
 	}
